@@ -376,7 +376,7 @@ fn features_without_pf<V: VringT<dmn::Mem> + Clone + Send + Sync + 'static>(cfg:
 
 /// A newly attached backend-request channel inherits reply-ack / shared-object / shmem.
 fn backend_channel<V: VringT<dmn::Mem> + Clone + Send + Sync + 'static>(cfg: &Cfg) {
-    for bits in 0..24u64 {
+    for bits in 0..40u64 {
         // when the channel is attached: right after the negotiation, after a RESET_DEVICE, or after
         // a later SET_FEATURES without VHOST_USER_F_PROTOCOL_FEATURES (protocol features persist)
         let moment = bits / 8;
@@ -394,6 +394,21 @@ fn backend_channel<V: VringT<dmn::Mem> + Clone + Send + Sync + 'static>(cfg: &Cf
         }
         if sh {
             pf |= spec::PF_SHMEM;
+        }
+        // moments 3 and 4: the settings were negotiated wider before - by an earlier SET_PROTOCOL_FEATURES of
+        // this connection (3) or on an earlier connection to the same daemon (4); the later, narrower
+        // negotiation is the one in force
+        if moment >= 3 {
+            let wide = spec::PF_BACKEND_REQ | spec::PF_MQ | spec::PF_RESET_DEVICE | spec::PF_REPLY_ACK | spec::PF_SHARED_OBJECT | spec::PF_SHMEM;
+            if dmn::negotiate(&mut fe, dmn::NEG_FEATURES_PF, wide).is_err() {
+                report::inconclusive("negotiate (wide)");
+                return;
+            }
+            if moment == 4 {
+                drop(fe);
+                let _ = s.daemon.wait();
+                fe = s.connect(1);
+            }
         }
         if dmn::negotiate(&mut fe, dmn::NEG_FEATURES_PF, pf).is_err() {
             report::inconclusive("negotiate");
@@ -425,24 +440,41 @@ fn backend_channel<V: VringT<dmn::Mem> + Clone + Send + Sync + 'static>(cfg: &Cf
         report::eval(1);
         report::distinct_str(&format!("channel:{moment}:{bits}"));
         let uuid = VhostUserSharedMsg { uuid: uuid_from(7) };
-        // an ack is queued up front so that a call that does wait cannot block the check
-        if so {
-            sys::send_all(ours.as_raw_fd(), &spec::msg(spec::be::SHARED_OBJECT_ADD, spec::F_VERSION1 | spec::F_REPLY, &spec::p_u64(0)), &[]).expect("ack");
-        }
-        let r1 = b.shared_object_add(&uuid);
-        let m1 = if sys::inq(ours.as_raw_fd()) >= 12 { Some(spec::read_msg(ours.as_raw_fd(), 500, 64)) } else { None };
         let mm = VhostUserMMap { shmid: 1, padding: [0; 7], fd_offset: 0, shm_offset: 0, len: 4096, flags: 0 };
-        if sh {
-            sys::send_all(ours.as_raw_fd(), &spec::msg(spec::be::SHMEM_UNMAP, spec::F_VERSION1 | spec::F_REPLY, &spec::p_u64(0)), &[]).expect("ack");
-        }
-        let r2 = b.shmem_unmap(&mm);
-        let m2 = if sys::inq(ours.as_raw_fd()) >= 12 { Some(spec::read_msg(ours.as_raw_fd(), 500, 64)) } else { None };
+        // The call runs on a helper thread; the harness plays the frontend: it reads the request if one
+        // appears and acknowledges it iff it asks for an acknowledgement (so a channel that wrongly waits
+        // for one is released as well, and nothing is queued that a later call could mistake for its own).
+        let serve = |code: u32, call: &(dyn Fn() -> std::io::Result<u64> + Sync)| -> (std::io::Result<u64>, Option<spec::RawMsg>) {
+            let done = std::sync::atomic::AtomicBool::new(false);
+            let mut msg = None;
+            let mut res = None;
+            std::thread::scope(|sc| {
+                let h = sc.spawn(|| {
+                    let r = call();
+                    done.store(true, std::sync::atomic::Ordering::SeqCst);
+                    r
+                });
+                sys::wait_until(10_000, || done.load(std::sync::atomic::Ordering::SeqCst) || sys::inq(ours.as_raw_fd()) >= 12);
+                if sys::inq(ours.as_raw_fd()) >= 12 {
+                    let m = spec::read_msg(ours.as_raw_fd(), 500, 64);
+                    let wants_ack = m.complete() && m.hdr().flags & spec::F_NEED_REPLY != 0;
+                    msg = Some(m);
+                    if wants_ack || !sys::wait_until(1000, || done.load(std::sync::atomic::Ordering::SeqCst)) {
+                        let _ = sys::send_all(ours.as_raw_fd(), &spec::msg(code, spec::F_VERSION1 | spec::F_REPLY, &spec::p_u64(0)), &[]);
+                    }
+                }
+                res = h.join().ok();
+            });
+            (res.unwrap_or_else(|| Err(std::io::Error::other("panicked"))), msg)
+        };
+        let (r1, m1) = serve(spec::be::SHARED_OBJECT_ADD, &|| b.shared_object_add(&uuid));
+        let (r2, m2) = serve(spec::be::SHMEM_UNMAP, &|| b.shmem_unmap(&mm));
         let sent1 = m1.as_ref().is_some_and(|m| m.complete());
         let sent2 = m2.as_ref().is_some_and(|m| m.complete());
         let nr1 = m1.as_ref().map(|m| m.hdr().flags & spec::F_NEED_REPLY != 0);
         let ok = r1.is_ok() == so && sent1 == so && r2.is_ok() == sh && sent2 == sh && (!so || nr1 == Some(ra)) && (!sh || m2.as_ref().map(|m| m.hdr().flags & spec::F_NEED_REPLY != 0) == Some(ra));
         if !ok {
-            viol(cfg, "set_backend_req_fd:negotiated-settings-not-inherited", jo! {"attached" => ["after-negotiation", "after-reset-device", "after-set-features-without-pf"][moment as usize], "negotiated" => jo!{"reply_ack" => ra, "shared_object" => so, "shmem" => sh},
+            viol(cfg, "set_backend_req_fd:negotiated-settings-not-inherited", jo! {"attached" => ["after-negotiation", "after-reset-device", "after-set-features-without-pf", "after-a-narrower-renegotiation", "after-a-narrower-negotiation-on-a-new-connection"][moment as usize], "negotiated" => jo!{"reply_ack" => ra, "shared_object" => so, "shmem" => sh},
                 "shared_object_add" => format!("{r1:?}"), "shared_object_request_on_wire" => sent1, "need_reply_flag" => nr1, "shmem_unmap" => format!("{r2:?}"), "shmem_request_on_wire" => sent2}, "channel");
             return;
         }
@@ -482,7 +514,20 @@ fn used_and_call<V: VringT<dmn::Mem> + Clone + Send + Sync + 'static>(cfg: &Cfg,
         let mut trace: Vec<String> = Vec::new();
         let errfd = EventFd::new(libc::EFD_NONBLOCK).expect("eventfd");
         for step in 0..cfg.pick(10, 30) {
-            match rng.below(6) {
+            match rng.below(7) {
+                6 => {
+                    // the frontend withdraws the call descriptor (switches to polling): SET_VRING_CALL with the
+                    // no-descriptor flag, written raw (the library's frontend has no call for it)
+                    let fd = w.fe().as_raw_fd();
+                    let sent = sys::send_all(fd, &spec::msg(spec::fe::SET_VRING_CALL, spec::F_VERSION1 | spec::F_NEED_REPLY, &spec::p_u64(0x100 | q as u64)), &[]);
+                    let m = spec::read_msg(fd, 10_000, 64);
+                    if sent.is_err() || !m.complete() || m.body != spec::p_u64(0) {
+                        report::inconclusive("set_vring_call(nofd)");
+                        return;
+                    }
+                    cur_call = None;
+                    trace.push("SET_VRING_CALL(nofd)".into());
+                }
                 5 => {
                     // the error descriptor is not the call descriptor: installing it changes nothing here
                     if w.fe().set_vring_err(q, &errfd).is_err() {
